@@ -346,7 +346,7 @@ def run_weak(inp):
             probs.append(f"key outside 0..2^L-1: {sorted(counts)}")
         if list(counts) != sorted(counts):
             probs.append("results not sorted by key")
-        if not noise:
+        if not noise or noise[1] == 0.0:
             qc = build_circuit([g for g in spec if g[0] not in ("measure_all",)], L)
             init = inp.get("basis_state")
             sv = Statevector.from_label(init[::-1]) if init else Statevector.from_label("0" * L)
@@ -475,11 +475,13 @@ def gen(rng, tier):
                "sub": rng.randrange(1 << 30)}
     yield {"kind": "weak-seq", "L": 2, "circuit": random_circuit(rng, 2), "shots": rng.choice([3, 6]),
            "noises": rng.choice([[["pauli_x", 0.2], None], [None, ["pauli_z", 0.1], None], [None, None]])}
+    # a noise model whose strengths are all zero is the noise-free policy (one trajectory, `shots` samples) in every layer
+    yield {"kind": "weak", "L": 2, "circuit": random_circuit(rng, 2), "shots": 6, "noise": ["pauli_x", 0.0], "basis_state": None}
     for i in range(n_weak):
         L = rng.choice([1, 2, 3, 4])
         noise = None
-        if rng.random() < 0.3:
-            noise = [rng.choice(["pauli_x", "pauli_z", "lowering"]), rng.choice([0.01, 0.2])]
+        if rng.random() < 0.45:
+            noise = [rng.choice(["pauli_x", "pauli_z", "lowering"]), rng.choice([0.01, 0.2, 0.0])]
         yield {"kind": "weak", "L": L, "circuit": random_circuit(rng, L), "shots": rng.choice([1, 2, 7, 23]) if noise else rng.choice([1, 2, 9, 40]),
                "noise": noise, "basis_state": None if rng.random() < 0.7 else "".join(rng.choice("01") for _ in range(L))}
 
